@@ -140,8 +140,8 @@ def run(ctx, limit):
         if ku not in par or kv not in nxt:
             continue
         todo.append(path_to(ku) + [kv] + completion(kv))
+    # the plain build replays every transition (fast); the sanitizer build a sample of them in the quick tier
     stride = max(1, len(todo) // limit) if limit else 1
-    todo = todo[::stride]
     script = os.path.join(wd, "docs.txt")
     exp = []
     with open(script, "w") as f:
@@ -204,9 +204,17 @@ def run(ctx, limit):
             exp.append({"expect": expect, "out": node[p[-1]]["out"], "errline": first_err_line, "lines": lines})
     cov["g3parser_documents"] = len(exp)
     res = {"matched": 0, "handler_refused": 0}
+    script_asan = script
+    if stride > 1:
+        script_asan = os.path.join(wd, "docs-asan.txt")
+        blocks = open(script).read().split("DOC ")[1:]
+        with open(script_asan, "w") as f:
+            f.write("".join("DOC " + b for b in blocks[::stride]))
+    nasan = len(exp) if stride == 1 else len(range(0, len(exp), stride))
+    cov["g3parser_documents_sanitizer"] = nasan
     for kind in ("plain", "asan"):
         bdir = vlib.build(kind, ["drv_dataparser"])
-        rc, o = vlib.sh([os.path.join(bdir, "drv_dataparser"), script], timeout=1800, env=vlib.ASAN_ENV if kind == "asan" else None)
+        rc, o = vlib.sh([os.path.join(bdir, "drv_dataparser"), script_asan if kind == "asan" else script], timeout=1800, env=vlib.ASAN_ENV if kind == "asan" else None)
         recs = []
         for l in o.splitlines():
             if l.startswith("{"):
@@ -215,9 +223,9 @@ def run(ctx, limit):
                 except ValueError:      # the line the driver died in
                     break
         docs = [x for x in recs if "doc" in x]
-        if rc != 0 or len(docs) != len(exp):
+        if rc != 0 or len(docs) != (nasan if kind == "asan" else len(exp)):
             ctx.violation("g3parser|crash|" + kind, "drv_dataparser (%s build) rc=%s answered %d of %d documents (a crash of the parser on a sequence of tags the table allows)\n%s" % (
-                kind, rc, len(docs), len(exp), o[-2500:]), replay={"script": script, "doc": len(docs)})
+                kind, rc, len(docs), nasan if kind == "asan" else len(exp), o[-2500:]), replay={"script": script_asan if kind == "asan" else script, "doc": len(docs)})
             continue
         if kind == "asan":
             continue
